@@ -14,7 +14,7 @@ corpus = "--corpus" in sys.argv
 res = {}
 for name in sorted(os.listdir(os.path.join(VERIF, "seeded"))):
     d = os.path.join(VERIF, "seeded", name)
-    if not os.path.isdir(d) or (only and name not in only):
+    if not os.path.isdir(d) or not re.match(r"C\d\d_", name) or (only and name not in only):
         continue
     pid = name.split("_")[0]
     subprocess.run(["git", "-C", "/repo", "checkout", "--", "."], check=True)
